@@ -38,7 +38,8 @@
    compute that flattening (code 74).  Property theorems only. *)
 From TV Require Import Base Model.Wiring Model.Ticker Model.Component Model.Sim Model.SimTime Model.Inline Model.NSim Model.Interrupts
   Oracle.SimCheck Oracle.SimOracle
-  Proofs.SimP Proofs.FlattenP Proofs.EqvP Proofs.ParDevP Proofs.InlineP Proofs.InlineLoopP Proofs.InlineScopeP Proofs.InlineAllP Proofs.InterruptsP Proofs.SimTimeP Proofs.InlineLatestP Proofs.ScheduleP Proofs.SimTraceP.
+  Proofs.SimP Proofs.FlattenP Proofs.EqvP Proofs.ParDevP Proofs.InlineP Proofs.InlineLoopP Proofs.InlineScopeP Proofs.InlineAllP Proofs.InterruptsP Proofs.SimTimeP Proofs.InlineLatestP Proofs.ScheduleP Proofs.SimTraceP
+  Model.NNSim Proofs.NScheduleP Proofs.NDetP Proofs.NDetScopeP Proofs.SimNTP.
 Open Scope Z_scope.
 
 Theorem C09_flat_devices : forall cfg fuel lv, flat_order fuel cfg lv = devices_below cfg fuel lv.
@@ -325,6 +326,27 @@ Proof.
   eapply obs_rel_trans; [apply obs_rel_dev_obs; exact H1 | apply obs_rel_sym; apply H2].
 Qed.
 
+(* ... and with the nested half of C08: EVERY schedule of the nested simulation (any answer order at every level,
+   a system simulation answering with any run of its own level) and EVERY schedule of its flat equivalent give every
+   device the same sequence of (time, inputs) *)
+Theorem C09_every_nested_schedule_is_every_flat_schedule : forall cfg k ys (devf : devfun) f initial script sN obN sF obF,
+  scope_all k (S f) ys cfg = true ->
+  flat_wfb (level_of (inline_all k cfg) top) = true ->
+  subtree_okb cfg (S (S f)) top = true ->
+  (forall d k t i, NoDup (keys (fst (devf d k t i)))) ->
+  (forall d k t i i', NoDup (keys i) -> NoDup (keys i') -> eqv i i' -> devf d k t i = devf d k t i') ->
+  (forall y w, In (IStim y w) script -> In y ys) ->
+  (forall y, In y ys -> In y (map fst (l_order (level_of (inline_all k cfg) top)))) ->
+  nnrun cfg devf (S f) initial script sN obN ->
+  nrun (l_conns (level_of (inline_all k cfg) top)) (map fst (l_order (level_of (inline_all k cfg) top))) devf initial script sF obF ->
+  forall d, obs_rel (dev_obs d obN) (dev_obs d obF).
+Proof.
+  intros cfg k ys devf f initial script sN obN sF obF Hs Hwf Hok Hnd Hext Hys Hin HN HF d.
+  destruct (nnrun_is_sim cfg devf Hnd Hext (S f) initial script sN obN (subtree_okb_sound _ _ _ Hok) HN) as [_ H1].
+  pose proof (C09_any_depth_is_every_flat_schedule cfg k ys devf f initial script sF obF Hs Hwf Hnd Hext Hys Hin HF d) as H2.
+  eapply obs_rel_trans; [apply H1 | exact H2].
+Qed.
+
 (* non-vacuity: [sib_cfg] above is three levels deep (system 7 holds device 9 and system 10, which holds device 11):
    the system 7 can be inlined (its inner system 10 becomes a top-level system); four steps flatten the whole
    nesting, the result is the Coq flattening, and it is a well-formed flat level; interrupts of the source 3 and
@@ -339,6 +361,24 @@ Example C09_any_depth_example :
   (let '(_, obN, _) := sim_run sib_cfg (table_dev sib_tab) 20 8 0 100000 in
    map fst obN = map fst (snd (fst (sim_run (inline_all 5 sib_cfg) (table_dev sib_tab) 20 8 0 100000)))).
 Proof. vm_compute. repeat split; reflexivity. Qed.
+
+(* ... and its hypotheses are met by [sib_cfg] with runs under the last-dispatched-first strategy on both sides *)
+Example C09_nested_and_flat_schedules_example :
+  let script := [ITick; ITick; IStim 3%positive 650; ITick; ITick; IStim 8%positive 1000; ITick; ITick] in
+  let F := level_of (inline_all 5 sib_cfg) top in
+  scope_all 5 8 [3%positive; 8%positive] sib_cfg = true /\ flat_wfb F = true /\ subtree_okb sib_cfg 9 top = true /\
+  (exists sN obN, nnrun sib_cfg (table_dev sib_tab) 8 0 script sN obN) /\
+  (exists sF obF, nrun (l_conns F) (map fst (l_order F)) (table_dev sib_tab) 0 script sF obF).
+Proof.
+  cbv zeta. split; [vm_compute; reflexivity|]. split; [vm_compute; reflexivity|]. split; [vm_compute; reflexivity|]. split.
+  - destruct (nnrun_from_start sib_cfg (table_dev sib_tab) pick_last 100 8 0 [ITick; ITick; IStim 3%positive 650; ITick; ITick; IStim 8%positive 1000; ITick; ITick])
+      as [[sN obN]|] eqn:E; [|vm_compute in E; discriminate].
+    exists sN, obN. eapply nnrun_from_start_sound. exact E.
+  - destruct (nrun_from_start (l_conns (level_of (inline_all 5 sib_cfg) top)) (map fst (l_order (level_of (inline_all 5 sib_cfg) top))) (table_dev sib_tab) pick_last 100 0
+                [ITick; ITick; IStim 3%positive 650; ITick; ITick; IStim 8%positive 1000; ITick; ITick])
+      as [[sF obF]|] eqn:E; [|vm_compute in E; discriminate].
+    exists sF, obF. eapply nrun_from_start_sound. exact E.
+Qed.
 
 (* pass-through ports: a wire straight from an external to an exposed port of the system 4 (external 1 -> expose 2)
    becomes the direct wire 3.1 -> 8.2 of the inlined configuration; the shape is in scope as long as what feeds the
